@@ -117,9 +117,15 @@ def check_space(s, m, bad):
         else:
             base = safe(lambda: impl._dynbase.interface)
             bown = safe(lambda: dict(base._own_refs)) if not isinstance(base, str) else "x"
+            # names bound as parameters along the way take precedence over every reference
+            pnames = set()
+            sp = base
+            while not isinstance(sp, str) and hasattr(sp, "parameters"):
+                pnames |= set(safe(lambda: sp.parameters or ()) or ())
+                sp = safe(lambda: sp.parent)
             if isinstance(bown, dict):
                 for n in sorted(set(bown) & set(mrefs)):
-                    if n in own or hasattr(bown[n], "_impl"):
+                    if n in own or n in pnames or hasattr(bown[n], "_impl"):
                         continue        # overridden by the dynamic space itself / an object that is re-bound
                     if not same_value(refs.get(n), bown[n]):
                         bad("refs-precedence", {"space": path, "name": n, "refs[name]": render(refs.get(n)),
